@@ -5,6 +5,8 @@ set -u
 cd "$(dirname "$0")/.."
 b="$1"
 if ! git merge --no-commit --no-ff "$b" >/tmp/merge_out.txt 2>&1; then
+  # evidence files are rewritten by every run: take the branch's version
+  for f in $(git diff --name-only --diff-filter=U | grep '^evidence/'); do git checkout --theirs "$f" && git add "$f"; done
   if git diff --name-only --diff-filter=U | grep -q .; then
     echo "CONFLICTS:"; git diff --name-only --diff-filter=U; echo "resolve by hand, then: git add -A && git commit"; exit 1
   fi
